@@ -466,6 +466,10 @@ def _directed() -> Dict[str, Dict[str, Any]]:
     epy_doc = 'Intro.\n\n' + ''.join(f'{h.strip()}\n{"=" * len(h.strip())}\n\ntext\n\n' for h in heads)
     add('section-titles-repeat', {'pkg/__init__.py': f'{epy_doc!r}\n', 'pkg/a.py': f'def f():\n    {epy_doc!r}\nclass K:\n    {epy_doc!r}\n',
                                   'pkg/r.py': f'__docformat__ = "restructuredtext"\n{epy_doc!r}\ndef f():\n    {epy_doc!r}\n', 'pkg/good.py': GOOD})
+    add('overloads-with-call-decorators', {'pkg/__init__.py': '', 'pkg/a.py': 'from typing import overload\nimport typing as t\ndef register(k):\n    def deco(f): return f\n    return deco\n'
+                                           'REG = {"k": register}\n@overload\n@register("str")\ndef f(a: str) -> str: ...\n@overload\n@REG["k"]("int")\ndef f(a: int) -> int: ...\n@t.overload\n@register(1)(2)\ndef f(a: bytes) -> bytes: ...\n'
+                                           'def f(a):\n    "doc"\n    return a\nclass K:\n    @overload\n    @register("x")\n    def m(self, a: int) -> int: ...\n    @register("y")\n    @overload\n    def m(self, a: str) -> str: ...\n    def m(self, a):\n        "doc"\n',
+                                           'pkg/good.py': GOOD})
     add('reexport-own-package', {'pkg/__init__.py': '', 'pkg/a/__init__.py': 'x = 1\nclass InA: pass\n', 'pkg/a/b.py': 'from pkg import a\nfrom pkg.a import InA\nimport pkg\n__all__ = ["a", "InA", "pkg"]\n',
                                   'pkg/a/c.py': 'from .. import a as renamed\nfrom . import c\n__all__ = ["renamed", "c"]\n', 'pkg/good.py': GOOD})
     add('same-path-twice', {'pkg/__init__.py': '', 'pkg/good.py': GOOD}, roots=['pkg', 'pkg'])
